@@ -193,7 +193,7 @@ func dfsOrdered(sc *Scenario, tr *Trace, st *driveStats, maxExecs int, descendin
 			return
 		}
 		stack[len(stack)-1].idx++
-		if st.Execs >= maxExecs {
+		if st.Execs >= maxExecs || st.Deadlocks+st.Stuck >= coreMaxBroken {
 			return
 		}
 	}
@@ -211,8 +211,14 @@ func randomRuns(sc *Scenario, tr *Trace, st *driveStats, n int, rng *rand.Rand) 
 		}
 		res := execute(sc, choose)
 		emitExec(tr, sc, st.Execs, res, st)
+		if st.Deadlocks+st.Stuck >= coreMaxBroken {
+			return
+		}
 	}
 }
+
+// a scenario is not explored further once this many of its executions ended in a deadlock (each costs seconds)
+const coreMaxBroken = 20
 
 func min(a, b int) int {
 	if a < b {
